@@ -41,6 +41,16 @@ def e2e_cases(dest, families=None):
     return out
 
 
+P_FELT = 0x800000000000011000000000000000000000000000000000000000000000001
+FELT_BOUNDS = [0, 1, 2 ** 64, 2 ** 128 - 1, 2 ** 128, 2 ** 128 + 1, 2 ** 129, 2 ** 250, 2 ** 251, P_FELT - 2, P_FELT - 1]
+# explicit runs of own corpus functions whose interesting inputs are key / boundary values of a felt252 argument
+# (the generic vector sampler only reaches the first few boundary values in the quick tier)
+OWN_EXPLICIT = {
+    "dicts": [{"fn_name": f"::{fn}", "args": [str(k), "9"], "g": 10_000_000}
+              for fn in ("dict_single_key", "dict_adjacent_keys", "dict_key_and_zero") for k in FELT_BOUNDS],
+}
+
+
 def corpus_jobs(tier, want_mutants=0, solvers=("linear",), e2e_limit=None, run=True, sample=None):
     jobs = []
     d = clean_dir(os.path.join(workdir("sierra"), "e2e_src"))
@@ -55,7 +65,8 @@ def corpus_jobs(tier, want_mutants=0, solvers=("linear",), e2e_limit=None, run=T
         sfx = "" if solver == "linear" else "@lp"
         for p in own:
             jobs.append({"id": "own_" + os.path.basename(p)[:-6] + sfx, "kind": "cairo", "path": p, "solver": solver,
-                         "mutants": want_mutants, "max_funcs": 12, "run": run})
+                         "mutants": want_mutants, "max_funcs": 12, "run": run,
+                         "explicit": OWN_EXPLICIT.get(os.path.basename(p)[:-6], []) if run else [], "also_generic": True})
         for p in ex:
             jobs.append({"id": "ex_" + os.path.basename(p)[:-6] + sfx, "kind": "cairo", "path": p, "solver": solver,
                          "mutants": want_mutants, "run": run})
